@@ -1000,7 +1000,9 @@ impl RenderContext {
             }
             if transform.is_noop() {
                 let output_channels = transform.output_channels();
-                grid.remove_color_channels(output_channels);
+                if output_channels < 3 {
+                    grid.remove_color_channels(output_channels);
+                }
                 return Ok(Arc::new(grid));
             }
 
